@@ -1710,13 +1710,10 @@ def _should_create_value_info_for_value(value: _protocols.ValueProtocol) -> bool
     Returns:
         True if value info should be created for the value.
     """
-    # No need to serialize value info if it is not set
-    if (
-        value.shape is None
-        and value.type is None
-        and not value.metadata_props
-        and not value.doc_string
-    ):
+    # No need to serialize value info if it is not set. A shape cannot be written
+    # without a type (see serialize_shape_into), so a value that only has a shape
+    # has nothing to serialize either.
+    if value.type is None and not value.metadata_props and not value.doc_string:
         return False
     if not value.name:
         logger.debug("Did not serialize '%s' because its name is empty", value)
